@@ -121,8 +121,9 @@ def build_gofacts():
         return rc == 0, out
 
 
-def regen(ctx, props):
-    """regenerate PRV/Gen/<prop>.lean from /repo; a failure is a broken tie"""
+def regen(ctx, props, soft=False):
+    """regenerate PRV/Gen/<prop>.lean from /repo; a failure is a broken tie (soft: only noted — the file belongs to another
+    property's model and is only linked into the driver)"""
     ok, out = build_gofacts()
     if not ok:
         ctx.tie_failures.append("translator does not build: " + out[-400:])
@@ -131,7 +132,9 @@ def regen(ctx, props):
     with Lock("lake"):
         for p in props:
             rc, out = sh([BUILD + "/gofacts", "-repo", REPO, "-out", LEAN + "/PRV/Gen", "-prop", p])
-            if rc != 0:
+            if rc != 0 and soft:
+                ctx.notes.append("translator rule failed for Gen.%s (not a dependency of this property's theorems): %s" % (p, out.strip()[-200:]))
+            elif rc != 0:
                 ctx.tie_failures.append("translator rule failed for Gen.%s: %s" % (p, out.strip()[-400:]))
                 allok = False
     return allok
@@ -215,9 +218,44 @@ def failing_theorems(out, pid):
     return names
 
 
+def _lean_imports(mod, seen):
+    p = "%s/%s.lean" % (LEAN, mod.replace(".", "/"))
+    if not os.path.exists(p):
+        return
+    for m in re.findall(r"^import (PRV\.[A-Za-z0-9_.]+)", open(p).read(), re.M):
+        if m not in seen:
+            seen.add(m)
+            _lean_imports(m, seen)
+
+
+def needed_gens(pid):
+    """the generated files this property's theorems depend on (transitively), and those only the driver links in"""
+    seen, drv_seen = set(), set()
+    _lean_imports("PRV.Props." + pid, seen)
+    _lean_imports("Main", drv_seen)
+    own = sorted(m.split(".")[-1] for m in seen if m.startswith("PRV.Gen."))
+    drv_only = sorted(m.split(".")[-1] for m in drv_seen if m.startswith("PRV.Gen.") and m.split(".")[-1] not in own)
+    return own, drv_only
+
+
+def regen_needed(ctx):
+    """every generated file this check depends on is regenerated from the current tree — also those another check's run may have
+    left behind from a different state of /repo (Props import each other; the driver imports several Gen files)"""
+    done = getattr(ctx, "_regenerated", set())
+    own, drv_only = needed_gens(ctx.pid)
+    todo = [g for g in own if g not in done]
+    soft = [g for g in drv_only if g not in done]
+    if todo:
+        regen(ctx, todo)
+    if soft:
+        regen(ctx, soft, soft=True)
+    ctx._regenerated = done | set(todo) | set(soft)
+
+
 def prove(ctx, extra_targets=()):
     """build Props + Audit for ctx.pid; fill obligations/discharged/axioms/proof_failures"""
     pid = ctx.pid
+    regen_needed(ctx)
     thms = props_theorems(pid)
     ctx.obligations = list(thms)
     audit = "%s/PRV/Audit/%s.lean" % (LEAN, pid)
@@ -272,6 +310,11 @@ def prove(ctx, extra_targets=()):
 
 
 def build_driver(ctx):
+    regen_needed(ctx)
+    return _build_driver(ctx)
+
+
+def _build_driver(ctx):
     rc, out = lake(["prvdrv"])
     if rc != 0:
         errs = [l for l in out.split("\n") if l.startswith("error:")][:6]
